@@ -142,7 +142,7 @@ def work(p):
 
 def run(ck):
     quick = ck.tier == "quick"
-    n = 3000 if quick else 40000
+    n = 9000 if quick else 40000
     specs = []
     for i in range(n):
         r = ck.rng("m", i)
